@@ -27,7 +27,7 @@ def bucketSample (w : Int) (size : Nat) (h : List RPOp) (e : Nat) : List Int :=
 
 /-- the snapshot the property dictates: buckets hi, hi-1, …, hi-n+1 (those that exist), merged and sorted -/
 def snapshot (n : Nat) (w : Int) (size : Nat) (h : List RPOp) : List Int :=
-  ((((List.range n).filter (fun i => i ≤ hi w h)).map (fun i => bucketSample w size h (hi w h - i))).flatten).mergeSort leInt
+  isort ((((List.range n).filter (fun i => i ≤ hi w h)).map (fun i => bucketSample w size h (hi w h - i))).flatten)
 
 def out (n : Nat) (w : Int) (size : Nat) (h : List RPOp) (op : RPOp) : RPOut :=
   match op with
